@@ -799,18 +799,28 @@ class Container:
             for substance, amount in source_container.contents.items():
                 source_unit = 'U' if substance.is_enzyme() else config.moles_storage_unit
                 total_mass += Unit.convert_from(substance, amount, source_unit, "g")
-            ratio = mass_to_transfer / total_mass
+            if mass_to_transfer > round(total_mass, config.internal_precision):
+                raise ValueError(f"Not enough mixture left in source container ({source_container.name}). " +
+                                 f"Only {total_mass} g available, {mass_to_transfer} g needed.")
+            ratio = min(mass_to_transfer / total_mass, 1.0) if total_mass else 0.0
         elif unit == 'mol':
             moles_to_transfer = Unit.convert_to_storage(quantity_to_transfer, 'mol')
             total_moles = sum(amount for substance, amount in source_container.contents.items()
                               if not substance.is_enzyme())
-            ratio = moles_to_transfer / total_moles
+            if moles_to_transfer > round(total_moles, config.internal_precision):
+                raise ValueError(f"Not enough mixture left in source container ({source_container.name}). " +
+                                 f"Only {Unit.convert_from_storage(total_moles, 'mol')} mol available, " +
+                                 f"{quantity_to_transfer} mol needed.")
+            ratio = min(moles_to_transfer / total_moles, 1.0) if total_moles else 0.0
         elif unit == 'U':
             total_activity = sum(amount for substance, amount in source_container.contents.items()
                                  if substance.is_enzyme())
             if total_activity == 0:
                 raise ValueError("There are no enzymes in the source container.")
-            ratio = quantity_to_transfer / total_activity
+            if round(quantity_to_transfer, config.internal_precision) > round(total_activity, config.internal_precision):
+                raise ValueError(f"Not enough mixture left in source container ({source_container.name}). " +
+                                 f"Only {total_activity} U available, {quantity_to_transfer} U needed.")
+            ratio = min(quantity_to_transfer / total_activity, 1.0)
         else:
             raise ValueError("Invalid quantity unit.")
 
